@@ -205,6 +205,22 @@ func scReplayInSitu(r *Run) {
 		return
 	}
 	vs, _ := tc.C.VerifSession()
+	// a long-lived session: the sender's counter is already large (close to and across 2^32, 2^48, ...)
+	base := uint64(0)
+	if r.Intn("cfg", 4) == 0 {
+		base = []uint64{1<<32 - 1 - uint64(r.Intn("cfg", 600)), 1<<31 - uint64(r.Intn("cfg", 600)), 1<<48 - uint64(r.Intn("cfg", 600)), 1<<63 - uint64(r.Intn("cfg", 600)), 1 + r.U64("cfg")%(1<<40)}[r.Intn("cfg", 5)]
+		cs0, _ := tc.C.VerifSession()
+		base += cs0.Count
+		if !tc.C.VerifSetSendCounter(base) {
+			r.Violate("C14/nofault/harness", "could not move the send counter")
+			return
+		}
+		r.CountFault("send-counter-moved-forward", 1)
+	} else {
+		cs0, _ := tc.C.VerifSession()
+		base = cs0.Count
+	}
+	r.SetCfg("counter-base", base)
 	c := &n.Cfg
 	c.Latency = 5 * time.Millisecond
 	c.Jitter = time.Duration(r.Intn("cfg", 400)) * time.Millisecond
@@ -254,10 +270,15 @@ func scReplayInSitu(r *Run) {
 		}
 	})
 	sent := map[string]uint64{}
+	nEmpty := 0
 	for i := 0; i < nMsg; i++ {
 		msg := make([]byte, 12)
 		binary.BigEndian.PutUint64(msg, uint64(i))
 		copy(msg[8:], "msg!")
+		if r.Intn("empty", 12) == 0 {
+			msg = []byte{} // an empty message is a message (counted, not identified)
+			nEmpty++
+		}
 		sent[string(msg)] = uint64(i)
 		// forged packets that try to burn the counters the client is about to use
 		if r.Intn("forge", 20) == 0 {
@@ -266,7 +287,7 @@ func scReplayInSitu(r *Run) {
 				pkt[0], pkt[1], pkt[2], pkt[3] = 0x10, 0, 0, 0
 				copy(pkt[4:8], vs.ID[:])
 				// the client's send counter equals the number of messages sent so far
-				binary.BigEndian.PutUint64(pkt[8:16], uint64(i+k))
+				binary.BigEndian.PutUint64(pkt[8:16], base+uint64(i+k))
 				n.Inject(tc.Addr, srv.Addr, pkt, 0, "forged")
 				r.CountFault("forged-fresh-counter", 1)
 			}
@@ -291,6 +312,9 @@ func scReplayInSitu(r *Run) {
 	}
 	seenMsg := map[uint64]bool{}
 	for _, g := range got {
+		if len(g) == 0 && nEmpty > 0 {
+			continue
+		}
 		id, ok := sent[string(g)]
 		if !ok {
 			r.Violate("C14/insitu-unknown-message", "application received a message that was never sent")
